@@ -502,10 +502,8 @@ class Extractor:
             need = [
                 r"pub struct Ident \{ pub path: Vec<String>, pub name: String, \}",
                 r"let mut seq = serializer\.serialize_seq\(Some\(self\.len\(\)\)\)\?; for part in &self\.path \{ seq\.serialize_element\(part\)\?; \} seq\.serialize_element\(&self\.name\)\?; seq\.end\(\)",
-                # either the unchecked form (panics on `[]`: finding F14b) or the repaired form of fixes/F14b-ident-empty-path.diff;
-                # the model (ident_de: None on `[]`) is the repaired behaviour, the panic is classified by c15.classify_empty_ident
-                r"<Vec<String> as Deserialize>::deserialize\(deserializer\)\.map\(Ident::from_path\)"
-                r"|let path = <Vec<String> as Deserialize>::deserialize\(deserializer\)\?; if path\.is_empty\(\) \{ (?:// `from_path` panics on an empty path; a document is input, not an invariant )?return Err\(<D::Error as serde::de::Error>::invalid_length\( 0, &\"a non-empty array of strings\", \)\); \} Ok\(Ident::from_path\(path\)\)",
+                # the checked form of 8eee066 (F14b); the unchecked `.map(Ident::from_path)` panics on `[]` and fails closed here
+                r"let path = <Vec<String> as Deserialize>::deserialize\(deserializer\)\?; if path\.is_empty\(\) \{ (?:// `from_path` panics on an empty path; a document is input, not an invariant )?return Err\(<D::Error as serde::de::Error>::invalid_length\( 0, &\"a non-empty array of strings\", \)\); \} Ok\(Ident::from_path\(path\)\)",
                 r"pub fn from_path<S: ToString>\(mut path: Vec<S>\) -> Self \{ let name = path\.pop\(\)\.unwrap\(\)\.to_string\(\); Ident \{ path: path\.into_iter\(\)\.map\(\|x\| x\.to_string\(\)\)\.collect\(\), name, \} \}",
             ]
             for pat in need:
